@@ -224,7 +224,9 @@ class AsyncTask(futures.FutureBase):
                 if hasattr(error, "_task"):
                     return self._generator.throw(error._type_, error, error._traceback)
                 else:
-                    return self._generator.throw(type(error), error)
+                    # single-argument form: keeps the traceback the error already carries (e.g.
+                    # the frames of a batch flush or of a lazy future's value provider)
+                    return self._generator.throw(error)
         except (StopIteration, GeneratorExit):
             # Returning leads to a StopIteration exception, which is
             # handled here. In this case we shouldn't need to extract frame
